@@ -250,7 +250,8 @@ def handleObsPend (st : RibSt) (ids : List Nat) : RibSt :=
     | some op =>
       match implRib.classify op with
       | .hold => st
-      | .ok => st.monfail "c02" s!"held operation {id} is resolvable but unanswered"
+      | .ok => (st.monfail "c02" s!"held operation {id} is resolvable but unanswered").monfail "c06"
+                 s!"unanswered: operation {id} is still held although everything it references is installed; it has received no result"
       | .err => st) st  -- not resolvable: answered FAILED by the next cascade
   let st := if ids.length > 0 then st.covr "pend.nonempty" else st
   -- C02 monitor: with forward references disallowed nothing is ever held
